@@ -134,7 +134,7 @@ func check(c *fw.Ctx, cs Case, src string, st *bcv.Stats, count bool) {
 			c.Count("constructors_executed", 1)
 		}
 		if o.GoPanic != nil || o.Err != nil || got != lua.LNumber(want) {
-			c.Violation(fmt.Sprintf("constructor with %d items (variant %d) ran to #t = %v (panic %v, error %v), want %d", cs.N, cs.M, got, o.GoPanic, o.Err, want), store)
+			c.Violation(fmt.Sprintf("%s program (n %d, variant %d) ran to %v (panic %v, error %v), want %d", cs.Family, cs.N, cs.M, got, o.GoPanic, o.Err, want), store)
 		}
 	}
 	seen := map[string]bool{}
@@ -152,8 +152,41 @@ func check(c *fw.Ctx, cs Case, src string, st *bcv.Stats, count bool) {
 	c.End(local.Protos >= 2 || local.Instructions >= 30, key)
 }
 
+// loopExits: loops whose body starts with, or is nothing but, a jump out of it;
+// each chunk returns the number given.
+var loopExits = []struct {
+	src  string
+	want int
+}{
+	{"local t = {1, 2, 3} local function f() for _ in pairs(t) do return end end f() return 1", 1},
+	{"local t = {1, 2, 3} local n = 0 local function f() n = n + 1 for _ in pairs(t) do break end end f() return n", 1},
+	{"local t = {1, 2, 3} local function f() for _, v in ipairs(t) do return v end end return f()", 1},
+	{"local function f() for i = 1, 3 do return end end f() return 2", 2},
+	{"local function f() for i = 1, 3 do break end end f() return 3", 3},
+	{"local function f() while true do return end end f() return 4", 4},
+	{"local function f() while true do break end end f() return 5", 5},
+	{"local function f() repeat return until true end f() return 6", 6},
+	{"local function f() repeat break until false end f() return 7", 7},
+	{"local n = 0 for _ in pairs({1, 2, 3}) do n = n + 1 if n == 2 then break end end return n", 2},
+	{"local n = 0 for k in pairs({1, 2, 3}) do do break end end for k in pairs({1}) do n = n + 1 end return n", 1},
+	{"local function f(t) for k in pairs(t) do if k then return end end end f({1}) return 8", 8},
+	{"local function f(t) for k in pairs(t) do goto out end ::out:: end f({1}) return 9", 9},
+	{"local function f(t) for k in next, t do return end return end f({1}) return 10", 10},
+}
+
 func expectedLen(cs Case) (int, bool) {
 	switch cs.Family {
+	case "loop-exits":
+		return loopExits[cs.M].want, true
+	case "move-run":
+		a := [8]int{0, 1, 2, 3, 4, 5, 6, 7}
+		if cs.M == 1 {
+			a[1] = 10
+		}
+		for i := 0; i < cs.N; i++ {
+			a[(i*3+1)%8] = a[(i*5)%8]
+		}
+		return a[0] + a[1]*2 + a[2]*3 + a[3]*5 + a[4]*7 + a[5]*11 + a[6]*13 + a[7]*17, true
 	case "constructor-no-locals":
 		return cs.N, true
 	case "constructor":
@@ -321,6 +354,13 @@ func adversarial(quick bool) []Case {
 	}
 	for _, n := range []int{100, 127, 128, 129, 200} {
 		add("upvalues-passthrough", n, 0)
+	}
+	for _, n := range []int{2, 3, 511, 512, 513, 514, 1023, 1024, 1025, 1536, 1600} {
+		add("move-run", n, 0)
+		add("move-run", n, 1)
+	}
+	for m := range loopExits {
+		add("loop-exits", 0, m)
 	}
 	return out
 }
@@ -572,6 +612,18 @@ func buildAdv(fam string, n, m int) string {
 			}
 		}
 		sb.WriteString("return acc")
+	case "move-run":
+		// n consecutive moves between locals (one bulk move, or several past the group limit)
+		sb.WriteString("local a0, a1, a2, a3, a4, a5, a6, a7 = 0, 1, 2, 3, 4, 5, 6, 7\n")
+		if m == 1 {
+			sb.WriteString("if a0 == 0 then a1 = 10 end\n")
+		}
+		for i := 0; i < n; i++ {
+			fmt.Fprintf(&sb, "a%d = a%d\n", (i*3+1)%8, (i*5)%8)
+		}
+		sb.WriteString("return a0 + a1 * 2 + a2 * 3 + a3 * 5 + a4 * 7 + a5 * 11 + a6 * 13 + a7 * 17")
+	case "loop-exits":
+		sb.WriteString(loopExits[m].src)
 	case "upvalues-passthrough":
 		// a middle function gathers 2n upvalues only through closures nested inside it
 		for i := 0; i < n; i++ {
